@@ -2,7 +2,9 @@
    stdin: one case per line   <head>|op;op;op      (see checks/c15.py for the op vocabulary)
    stdout: one line per case  k <result of op>;<result of op>;...
    With the argument --classify it prints instead, per case, the marker (S = the regex string is inside
-   the Ere.v model, U = outside) of every pattern-setting op:  k SSUS...                          *)
+   the Ere.v model, U = outside) of every pattern-setting op, then for the same ops whether the pattern
+   (after an optional ~) is accepted by the reader of the documented wildcard grammar, Pat/SimpleParse.v
+   (W) or not (n):   k SSUS WnnW                                                                    *)
 open Pat_model
 
 let rec pos_of_int n = if n = 1 then XH else if n land 1 = 0 then XO (pos_of_int (n lsr 1)) else XI (pos_of_int (n lsr 1))
@@ -47,11 +49,16 @@ let () =
       let sup = ref true in        (* is the current regex inside the Ere model *)
       let out = Buffer.create 256 in
       let marks = Buffer.create 16 in
+      let gram = Buffer.create 16 in
+      let in_grammar (p : n list) (simple : bool) =
+        let body = match p with c :: t when int_of_n c = 126 -> t | _ -> p in
+        Buffer.add_char gram (if simple && sparse body <> None then 'W' else 'n') in
       let bad_marker = ref false in
       let add s = Buffer.add_string out s; Buffer.add_char out ';' in
       let set_pat_op (prior : sm) (p : n list) (simple : bool) (marker : string) (tag : string) =
         let s_ok = regex_supported p simple in
         Buffer.add_char marks (if s_ok then 'S' else 'U');
+        if classify then in_grammar p simple;
         if not classify && (marker <> (if s_ok then "S" else "U")) then bad_marker := true;
         let (st', ok) = set_pattern ere_engine prior p simple in
         st := st'; sup := s_ok;
@@ -68,6 +75,7 @@ let () =
             let p = str_of_hex h in
             let s_ok = regex_supported p (si = "1") in
             Buffer.add_char marks (if s_ok then 'S' else 'U');
+            if classify then in_grammar p (si = "1");
             if not classify && (m <> (if s_ok then "S" else "U")) then bad_marker := true;
             let (tmp, _) = set_pattern ere_engine sm_init p (si = "1") in
             let tmp = set_negate tmp (ng = "1") in
@@ -85,7 +93,7 @@ let () =
               add ("e=" ^ Buffer.contents b)
             end else add "e=-"
         | _ -> add ("?" ^ op)) ops;
-      if classify then Printf.printf "%d %s\n" k (Buffer.contents marks)
+      if classify then Printf.printf "%d %s %s\n" k (Buffer.contents marks) (Buffer.contents gram)
       else begin
         Printf.printf "%d %s\n" k (Buffer.contents out);
         if !bad_marker then Printf.printf "%d ORACLE FAIL marker-mismatch (case line claims a different Ere-support class than the model computes)\n" k
